@@ -40,6 +40,9 @@ pub enum CommitPlan {
     Apply,
     /// record the batch (canonically ordered, epoch record last), apply nothing, return an error
     CaptureAndFail,
+    /// record EVERY write call (set / batch_set, in order), apply nothing, report success: the writes of a
+    /// publish are collected however the implementation groups them
+    CaptureAll,
 }
 
 pub struct Ctl {
@@ -230,6 +233,10 @@ impl Database for GateDb {
             self.ctl.reject_writes.fetch_sub(1, Ordering::SeqCst);
             return Err(StorageError::Connection("write rejected by the database".into()));
         }
+        if let CommitPlan::CaptureAll = self.ctl.commit_plan.lock().unwrap().clone() {
+            self.ctl.captured.lock().unwrap().push(vec![record]);
+            return Ok(());
+        }
         let r = self.inner.set(record).await;
         self.post("set:done").await;
         r
@@ -238,7 +245,7 @@ impl Database for GateDb {
     async fn batch_set(&self, records: Vec<DbRecord>, state: DbSetState) -> Result<(), StorageError> {
         let is_commit = matches!(state, DbSetState::TransactionCommit);
         let (records, azks_last) = canon_batch(records);
-        if is_commit && !azks_last {
+        if (is_commit || matches!(*self.ctl.commit_plan.lock().unwrap(), CommitPlan::CaptureAll)) && !azks_last {
             self.ctl.commit_azks_last_violations.fetch_add(1, Ordering::SeqCst);
         }
         let detail = format!(
@@ -253,6 +260,10 @@ impl Database for GateDb {
         if self.ctl.reject_writes.load(Ordering::SeqCst) > 0 {
             self.ctl.reject_writes.fetch_sub(1, Ordering::SeqCst);
             return Err(StorageError::Connection("write rejected by the database".into()));
+        }
+        if let CommitPlan::CaptureAll = self.ctl.commit_plan.lock().unwrap().clone() {
+            self.ctl.captured.lock().unwrap().push(records);
+            return Ok(());
         }
         if is_commit {
             let plan = self.ctl.commit_plan.lock().unwrap().clone();
